@@ -1,4 +1,153 @@
-(* PC08.v — property C08 (placeholder while the proofs are being built) *)
-From SV Require Import Phantoms.
-Theorem C08_placeholder : True. Proof. exact I. Qed.
-Print Assumptions C08_placeholder.
+(* PC08.v — property C08: phantom records account for every possible card and are scored worst-case.
+   Statements about the model of Phantoms.v (tied to shangrla/core/Audit.py, formats/Dominion.py, formats/Hart.py by
+   harness/c08.py on every run).  Cards, contests and identifiers are numbers; [Phant j] stands for prefix ++ str(j).
+   eff_bound mc (id, b) = b if the contest has its own card bound, else the stratum's bound mc.
+   real_count id l = number of non-phantom records of l listing the contest; count_listing id l = number of records listing it. *)
+From SV Require Import Phantoms Phantoms_proofs.
+Open Scope Z_scope.
+
+(* Style information used: every contest ends with exactly (its bound) records listing it, for every CVR list without
+   phantoms (the empty list included), every order of the contests, every combination of shortfalls; contest.cards and
+   contest.cvrs are set to the bound and to the number of CVRs listing the contest. *)
+Theorem C08_counts_style :
+  forall mc contests cvrs tp pool,
+  NoDup (map fst contests) -> no_phantoms cvrs -> bounds_ok_style mc contests cvrs ->
+  exists phs, make_phantoms [(true, mc)] contests cvrs tp pool
+              = Ok (cvrs ++ phs, Z.of_nat (length phs),
+                    map (fun kc => mkcs (fst kc) (eff_bound mc kc) (real_count (fst kc) cvrs)) contests)
+    /\ (forall kc b, In kc contests -> eff_bound mc kc = Some b -> count_listing (fst kc) (cvrs ++ phs) = b).
+Proof. exact counts_style. Qed.
+Print Assumptions C08_counts_style.
+
+(* No style information: the total number of records equals the stratum's bound; every contest gets cards = that bound. *)
+Theorem C08_counts_nostyle :
+  forall mc contests cvrs tp pool,
+  Z.of_nat (length cvrs) <= mc ->
+  exists phs, make_phantoms [(false, Some mc)] contests cvrs tp pool
+              = Ok (cvrs ++ phs, mc - Z.of_nat (length cvrs),
+                    map (fun kc => mkcs (fst kc) (Some mc) (real_count (fst kc) cvrs)) contests)
+    /\ Z.of_nat (length (cvrs ++ phs)) = mc
+    /\ Z.of_nat (length phs) = mc - Z.of_nat (length cvrs).
+Proof. exact counts_nostyle. Qed.
+Print Assumptions C08_counts_nostyle.
+
+(* Whenever the call returns (any strata, bounds, style): the originals come back first and unchanged, everything after
+   them is flagged phantom, and the returned number is the number of records added (when it is not negative). *)
+Theorem C08_originals_first :
+  forall strata contests cvrs tp pool out n ks,
+  make_phantoms strata contests cvrs tp pool = Ok (out, n, ks) ->
+  exists phs, out = cvrs ++ phs /\ firstn (length cvrs) out = cvrs /\ Forall (fun c => cphantom c = true) phs
+              /\ Z.of_nat (length phs) = Z.max 0 n.
+Proof. exact originals_first. Qed.
+Print Assumptions C08_originals_first.
+
+(* Phantom identifiers are prefix1, prefix2, ... in order, hence pairwise different; and the whole returned list has
+   unique identifiers when the originals do and none of them is of the form prefix ++ number. *)
+Theorem C08_ids_unique :
+  forall strata contests cvrs tp pool out n ks,
+  make_phantoms strata contests cvrs tp pool = Ok (out, n, ks) ->
+  exists phs, out = cvrs ++ phs /\ map cid phs = first_ids (length phs) /\ NoDup (map cid phs)
+    /\ (NoDup (map cid cvrs) -> (forall c j, In c cvrs -> cid c <> Phant j) -> NoDup (map cid out)).
+Proof. exact ids_unique. Qed.
+Print Assumptions C08_ids_unique.
+
+(* No more phantoms than the largest shortfall: n = max(0, max_c (bound_c - cvrs_c)) exactly (max_short). *)
+Theorem C08_no_excess :
+  forall mc contests cvrs tp pool out n ks,
+  make_phantoms [(true, mc)] contests cvrs tp pool = Ok (out, n, ks) ->
+  n = max_short ks /\ Z.of_nat (length out) = Z.of_nat (length cvrs) + max_short ks
+  /\ ks = map (fun kc => mkcs (fst kc) (eff_bound mc kc) (real_count (fst kc) cvrs)) contests.
+Proof. exact no_excess_style. Qed.
+Print Assumptions C08_no_excess.
+
+Theorem C08_max_short_is_largest_shortfall :
+  forall ks, 0 <= max_short ks /\ (forall k, In k ks -> short k <= max_short ks)
+             /\ (max_short ks = 0 \/ exists k, In k ks /\ short k = max_short ks).
+Proof. intro ks. split; [apply max_short_nonneg | apply max_short_spec]. Qed.
+Print Assumptions C08_max_short_is_largest_shortfall.
+
+Open Scope Q_scope.
+(* Replacing the manual record by a phantom never increases the overstatement assorter, for EVERY assorter with
+   nonnegative values (in particular every assorter into [0,u]), every margin v < 2u, style on or off, pooled or not,
+   whatever either record lists; and the phantom raises an error exactly when the manual record does (errors depend on
+   the CVR only).  pool_means_finite: the pool means that exist are numbers (np.nan arises only for an empty pool). *)
+Theorem C08_phantom_mvr_worst :
+  forall (A : card -> Q) k pm u v us mvr ph cvr,
+  0 < u -> v < 2 * u -> (forall c, 0 <= A c) -> cphantom ph = true -> pool_means_finite pm ->
+  match overstatement_assorter A k pm u v us mvr cvr, overstatement_assorter A k pm u v us ph cvr with
+  | Ok (Fin x), Ok (Fin y) => y <= x
+  | Err e, Err e' => e = e'
+  | _, _ => False
+  end.
+Proof. exact phantom_mvr_worst. Qed.
+Print Assumptions C08_phantom_mvr_worst.
+
+(* A phantom CVR that is not replaced by a pool mean scores exactly 1/2 whatever it contains and whatever the assorter;
+   the overstatement is then 1/2 minus the MVR's score. *)
+Theorem C08_phantom_cvr_half :
+  forall (A : card -> Q) k pm us mvr cvr,
+  cphantom cvr = true -> cvr_uses_pool pm cvr = false ->
+  (exists q, cvr_assort A pm cvr = Ok (Fin q) /\ q == 1 # 2)
+  /\ ((us && negb (has_contest cvr k))%bool = false ->
+      exists o, overstatement A k pm us mvr cvr = Ok (Fin o) /\ o == (1 # 2) - mvr_assort A k us mvr).
+Proof. exact phantom_cvr_half. Qed.
+Print Assumptions C08_phantom_cvr_half.
+
+(* stated separately, not hidden: a POOLED CVR (phantom or not) scores its pool's mean *)
+Theorem C08_pooled_cvr_scores_pool_mean :
+  forall (A : card -> Q) d cvr m,
+  cpool cvr = true -> lookup (ctally_pool cvr) d = Some m -> cvr_assort A (Some d) cvr = Ok m.
+Proof. exact pooled_cvr_scores_pool_mean. Qed.
+Print Assumptions C08_pooled_cvr_scores_pool_mean.
+
+(* ---------------------------------------------------------------- non-vacuity *)
+Open Scope Z_scope.
+(* the configuration of test_make_phantoms with the contests in the order that needs two rounds of creation:
+   6 CVRs; measure_1 (id 2, 4 CVRs, bound 5: shortfall 1) before city_council (id 1, 5 CVRs, bound 8: shortfall 3) *)
+Definition ex_cvrs : list card :=
+  [ mkcard (Orig 1) [1; 2] 1 false 0 false; mkcard (Orig 2) [1; 2] 2 false 0 false; mkcard (Orig 3) [1; 2] 3 false 0 false;
+    mkcard (Orig 4) [1] 4 false 0 false; mkcard (Orig 5) [1] 5 false 0 false; mkcard (Orig 6) [2] 6 false 0 false ].
+Definition ex_contests : list (Z * option Z) := [(2, Some 5); (1, None)].
+Example ex_hyps : NoDup (map fst ex_contests) /\ no_phantoms ex_cvrs /\ bounds_ok_style (Some 8) ex_contests ex_cvrs.
+Proof.
+  split; [|split].
+  - repeat constructor; simpl; intuition congruence.
+  - repeat constructor.
+  - intros kc [<-|[<-|[]]]; eexists; (split; [reflexivity|vm_compute; congruence]).
+Qed.
+Example ex_run :
+  exists out ks, make_phantoms [(true, Some 8)] ex_contests ex_cvrs 0 false = Ok (out, 3, ks)
+    /\ map cid (skipn 6 out) = [Phant 1; Phant 2; Phant 3]
+    /\ map ccontests (skipn 6 out) = [[2; 1]; [1]; [1]]
+    /\ count_listing 1 out = 8 /\ count_listing 2 out = 5 /\ max_short ks = 3.
+Proof. eexists. eexists. vm_compute. repeat split; reflexivity. Qed.
+Example ex_nostyle :
+  exists out ks, make_phantoms [(false, Some 8)] ex_contests ex_cvrs 0 false = Ok (out, 2, ks) /\ length out = 8%nat.
+Proof. eexists. eexists. vm_compute. split; reflexivity. Qed.
+Example ex_empty_list :                                        (* no CVR at all: everything is a phantom *)
+  exists out ks, make_phantoms [(true, None)] [(1, Some 2)] [] 0 false = Ok (out, 2, ks) /\ count_listing 1 out = 2.
+Proof. eexists. eexists. vm_compute. split; reflexivity. Qed.
+
+Open Scope Q_scope.
+(* plurality-like assorter on tags: tag 1 = vote for the winner (1), tag 2 = vote for the loser (0), otherwise 1/2 *)
+Definition ex_A (c : card) : Q := if Z.eqb (ctag c) 1 then 1 else if Z.eqb (ctag c) 2 then 0 else 1 # 2.
+Example ex_A_range : forall c, 0 <= ex_A c /\ ex_A c <= 1.
+Proof. intro c. unfold ex_A. destruct (Z.eqb (ctag c) 1); [lra|]. destruct (Z.eqb (ctag c) 2); lra. Qed.
+Example ex_pm_finite : pool_means_finite (Some [(1%Z, Fin (3 # 4))]) /\ pool_means_finite None.
+Proof.
+  split; intros d key m H; [|discriminate]. inversion H; subst. cbn [lookup].
+  intro E. destruct (Z.eqb 1 key); [|discriminate]. inversion E; eauto.
+Qed.
+(* a phantom MVR listing NO contest (as the format modules make it), style off, against a CVR for the winner whose
+   manual record shows the loser: B(phantom) = B(mvr) = 0; against a manual record for the winner: 0 < 4/7 *)
+Definition valq (r : result Xq) : option Q := match r with Ok (Fin q) => Some (Qred q) | _ => None end.
+Example ex_worst :
+  let ph := mkcard (Phant 1) [] 0 true 0 false in
+  let cvr := mkcard (Orig 1) [7%Z] 1 false 0 false in
+  valq (overstatement_assorter ex_A 7 None 1 (1 # 4) false ph cvr) = Some 0
+  /\ valq (overstatement_assorter ex_A 7 None 1 (1 # 4) false (mkcard (Orig 1) [7%Z] 2 false 0 false) cvr) = Some 0
+  /\ valq (overstatement_assorter ex_A 7 None 1 (1 # 4) false (mkcard (Orig 1) [7%Z] 1 false 0 false) cvr) = Some (4 # 7).
+Proof. vm_compute. repeat split; reflexivity. Qed.
+Example ex_half :
+  valq (overstatement ex_A 7 None true (mkcard (Phant 2) [] 0 true 0 false) (mkcard (Phant 2) [7%Z] 1 true 0 false)) = Some (1 # 2).
+Proof. vm_compute. reflexivity. Qed.
